@@ -30,7 +30,7 @@ RULE = ("(codec) real _Framer+_Record pairs with the Noise stand-in over an in-m
         "distinct = (kind, parameters).")
 ASSUMPTIONS = ["Noise stand-in: only 'dropped, nothing surfaced' is asserted, not the exception type"]
 FLOORS = {"quick": {"records_roundtripped": 8000, "attacks_fed": 150, "mitm_fed": 100},
-          "thorough": {"records_roundtripped": 300000, "attacks_fed": 5000, "mitm_fed": 4000}}
+          "thorough": {"records_roundtripped": 220000, "attacks_fed": 4000, "mitm_fed": 2800}}
 PAY = 65519
 ENC_SIZES = [9, 10, 100, PAY - 1, PAY, PAY + 1, 2 * PAY - 1, 2 * PAY, 2 * PAY + 1, 3 * PAY + 7]
 NUMS = [0, 1, 2, 255, 256, 2 ** 31 - 1, 2 ** 31, 2 ** 32 - 2, 2 ** 32 - 1]
